@@ -38,12 +38,17 @@ let parse_ops (toks : string list) : op list =
               | "n" -> MNative is_ref
               | "p" -> MPlutus (is_ref, n_of_string (next ()))
               | s -> failwith ("case syntax: mint kind " ^ s)) in
-          let zero = b01 (next ()) in
-          OpMint { mo_policy = policy; mo_wit = w; mo_zero = zero }
+          let asset = n_of_string (next ()) in
+          let amount = z_of_string (next ()) in
+          let set = b01 (next ()) in
+          OpMint { mo_policy = policy; mo_wit = w; mo_asset = asset; mo_amount = amount; mo_set = set }
         | "x" -> OpCert (wop (fun () ->
             let kind = n_of_string (next ()) in let s = b01 (next ()) in let id = n_of_string (next ()) in
             { c_kind = kind; c_script = s; c_id = id }))
-        | "w" -> OpWd (wop (fun () -> let net = n_of_string (next ()) in let c = cred () in { ra_net = net; ra_cred = c }))
+        | "w" -> OpWd (wop (fun () ->
+            let net = n_of_string (next ()) in let c = cred () in
+            let _coin = next () in                       (* the amount withdrawn: not part of the model (it must not matter) *)
+            { ra_net = net; ra_cred = c }))
         | "v" -> OpVote (wop (fun () ->
             let vk = next () in let c = cred () in
             match vk with
